@@ -32,7 +32,10 @@ pub(crate) fn c10_stub_format(_a: std::fmt::Arguments<'_>) -> String {
 #[repr(C, align(4096))]
 pub(crate) struct C10Buf {
     hdr: BtreePageHeader,
-    data: [[u8; 8]; (C10_PS - BTREE_PAGE_HEADER_SIZE) / 8],
+    // rows of 64 bytes: CBMC keeps arrays of <= 64 elements field-sensitive (one SSA symbol per byte), so slot
+    // offsets written by one operation are still constants when the next operation reads them
+    rows: [[u8; 64]; C10_CAP / 64],
+    tail: [u8; C10_CAP % 64],
 }
 impl C10Buf {
     fn zeroed() -> Self {
@@ -48,7 +51,8 @@ impl C10Buf {
                 padding: 0,
                 num_slots: 0,
             },
-            data: [[0u8; 8]; (C10_PS - BTREE_PAGE_HEADER_SIZE) / 8],
+            rows: [[0u8; 64]; C10_CAP / 64],
+            tail: [0u8; C10_CAP % 64],
         }
     }
 }
